@@ -182,6 +182,34 @@ def run(chk, replay=None):
                 orafail.append((t[0], bad))
         if x != y:
             disagree.append((x, y))
+    # 3. numbers written by the printer (convertToString) are CellML reals that read back equal to 15 significant digits
+    vals = [0.0, 1.0, -1.0, 0.1, -0.5, 1e22, 1e-7, 123456789012345.0, -1.23456789012345e-100, 1.23456789012345e+100, -9.99999999999999e-300, 2.2250738585072014e-308, -1.7976931348623157e+308, 5e-324]
+    for _ in range(1500 if chk.tier == 'quick' else 20000):
+        m = rng.choice([1.0, 2.0, 0.5, 1.5, 3.14159265358979, 1.23456789012345, 9.99999999999999, rng.uniform(1, 10), float(rng.randint(1, 999999))])
+        vals.append(rng.choice([1, -1]) * m * 10.0 ** rng.choice([0, 1, -1, 5, -5, 15, -15, 20, -20, 99, -99, 100, -100, 150, -150, 300, -300, rng.randint(-307, 307)]))
+    _, pimpl, e7 = run_lines(hx, ['tostring'], [v.hex() for v in vals])
+    printfail = []
+    hist_print = {'printed': len(vals), 'three_digit_exponents': 0, 'negative': 0}
+    for v, l in zip(vals, pimpl):
+        t = l.split()
+        text = bytes.fromhex('' if t[0] == '-' else t[0]).decode('latin-1')
+        hist_print['three_digit_exponents'] += bool(re.search(r'e[+-]\d{3}', text)); hist_print['negative'] += v < 0
+        back = float.fromhex(t[2])
+        try:
+            tv = float(text)
+        except ValueError:
+            tv = 1.0
+        if t[1] != '1' and v != 0.0 and (tv in (float('inf'), float('-inf')) or abs(tv) < 2.2250738585072014e-308):
+            kfs = [f for f in known_findings()['findings'] if f.get('id') == 'C16-edge-of-range-not-read-back']
+            if kfs:
+                chk.known_finding(kfs[0]['what']); continue
+        if t[1] != '1':
+            printfail.append((v, 'convertToString(%r) = %r is not accepted as a CellML real or not converted' % (v, text)))
+        elif ('%.15g' % back) != ('%.15g' % v):
+            printfail.append((v, 'convertToString(%r) = %r reads back as %r, which differs within 15 significant digits' % (v, text, back)))
+    if len(pimpl) != len(vals):
+        printfail.append((0.0, 'the harness stopped while printing numbers: ' + e7[-200:]))
+    hist['printed_numbers'] = hist_print
     chk.cov['distinct_nontrivial'] = len(nontriv)
     chk.cov['traces_validated_against_impl'] = len(impl) - len(disagree)
     chk.cov['outcome_histogram'] = hist
@@ -193,6 +221,8 @@ def run(chk, replay=None):
         for p, x, a, b in sorted(pos_dis, key=lambda t: len(t[1]))[:3]:
             chk.violation('position model and implementation disagree (correspondence `numpos` broken): impl %s / model %s' % (a, b),
                           {'kind': 'correspondence', 'engine': 'numpos', 'lines': ['%s %s' % (p, hexs(x))], 'impl': a, 'model': b}, False)
+    for v, why in printfail[:3]:
+        chk.violation('a printed number does not read back: ' + why, {'kind': 'oracle', 'engine': 'tostring', 'lines': [v.hex()], 'why': why}, True)
     seen = set()
     for h, bad in sorted(orafail, key=lambda t: (len(t[0]), t[0]))[:3]:
         if h in seen: continue
